@@ -103,6 +103,58 @@ CHECKS = {
             "plain, subscriber and notify variants.",
             "Mean at total weight zero and time average over zero span are "
             "unspecified cells."),
+    "C12": ("model_checking",
+            "exhaustive enumeration of operation sequences on a real "
+            "MersenneTwister vs a reference built from freshly constructed "
+            "real streams; twin and interleaved re-executions; scripted "
+            "uniforms for the range clause",
+            "seqmc",
+            "Every sequence of <=4 (thorough 5) ops over 19 letters "
+            "(next_float/bool, next_int over 10 ranges incl. single-value, "
+            "negative, 2^60-offset, 2^1000-wide, set_seed x4, reset, save, "
+            "restore) x several start seeds: reset/set_seed must equal a fresh "
+            "stream with that seed, restore a fresh stream replayed to the "
+            "save point; twin instance and interleaving with a second stream "
+            "give identical outputs; every output range-checked; scripted "
+            "extreme uniforms x 18 ranges.",
+            "seed()/reset() after restoring a state saved under another seed "
+            "is undocumented and excluded; ranges wider than 2^1000 outside "
+            "the bound."),
+    "C13": ("exploration",
+            "exhaustive configuration table evaluated in-process, with hash() "
+            "owned (enumerated answers), and in fresh interpreter processes "
+            "with different PYTHONHASHSEED; all evaluations must agree",
+            "cfgmc",
+            "Name sets x original seeds x replication numbers (valid, "
+            "negative, ill-typed, beyond the list) x seed tables x "
+            "default/replaced fallback x all listing orders x stream "
+            "histories for SimpleStreamUpdater and StreamSeedUpdater; seed and "
+            "first draws identical across processes / hash answers / orders / "
+            "histories; listed seed = table[r]; unlisted -> fallback; refused "
+            "updates change nothing.",
+            "PYTHONHASHSEED is a sampled dimension of 2^32 values; closed "
+            "in-process by owning hash()."),
+    "C16": ("exploration",
+            "exhaustive tables over all 41x41 quantity type pairs and all SI "
+            "signatures, against an independent SI-signature table",
+            "cfgmc",
+            "All ordered pairs x {*,/} x operand value/unit combinations, "
+            "quantity/SI and SI/quantity with a reused SI operand, all "
+            "as_quantity conversions, mixed-type add/sub/ordering refused, "
+            "same-type ops on SI values, number scaling; 175k SI string "
+            "parse/print round trips over 8 formats.",
+            "Reference signatures hand-written from the SI definitions."),
+    "C17": ("exploration",
+            "exhaustive table over 41 classes x 838 declared units x value "
+            "alphabet in two class orders; compound units recomputed from "
+            "components; public names; import * in a fresh process",
+            "cfgmc",
+            "si == value*factor bit-exact, unit, displayvalue, str/repr, "
+            "as_unit to every unit keeps si bit-identical, add/sub/compare on "
+            "SI values keeping the left unit, neg/abs, descriptions, aliases, "
+            "base factor 1, 219 compound spellings, all __all__ names, "
+            "quantity distribution wrappers.",
+            "57 non-compositional spellings skipped in the compound check."),
 }
 
 NOT_YET = {}
